@@ -537,7 +537,8 @@ def gen_stack(rng, maxn=300):
     the stacking sequence continues across the interface), or (None, reason).
     Returns ((atoms, recipe, setA, setB), None)."""
     lat, facet, s1, a1, s2, a2 = PAIRS[int(rng.integers(len(PAIRS)))]
-    n1, n2 = int(rng.integers(3, 6)), int(rng.integers(3, 6))
+    # thin slabs are the hard edge of the family ("at least three layers"): over-weighted
+    n1, n2 = int(rng.choice([3, 3, 3, 4, 4, 5])), int(rng.choice([3, 3, 3, 4, 4, 5]))
     rep = int(rng.integers(4, 6))
     pbcz = bool(rng.integers(2))
     noise = [0.0, 0.03][int(rng.integers(2))]
